@@ -39,6 +39,15 @@ def cond_index(f, ref, fe):
     return idx[0][1] if idx else None
 
 
+def rule_init_complete(ctx, fl):
+    ctx.doc('C09.4', 'initialiser completeness: every field of the full/empty lock that myth_felock_wait_and_lock_body / myth_felock_mark_and_signal_body / myth_felock_lock_body read(s), directly or through an inlined helper, '
+            'is written by myth_felock_init_body (an object placed in recycled memory must not depend on its previous contents)')
+    vi = ctx.view(NATIVE, roots=['myth_felock_init_body', 'myth_felock_wait_and_lock_body', 'myth_felock_mark_and_signal_body', 'myth_felock_lock_body', 'myth_felock_unlock_body', 'myth_felock_status_body'], stops=('myth_queue_push', 'myth_queue_pop', 'myth_yield_ex_body', 'hr_gettime', 'fprintf', 'exit') + lib.SPIN_STOPS, flavour=fl)
+    n = lib.init_covers(ctx, 'C09.4', vi, 'myth_felock_init_body', ['myth_felock_wait_and_lock_body', 'myth_felock_mark_and_signal_body', 'myth_felock_lock_body', 'myth_felock_unlock_body', 'myth_felock_status_body'], 'full/empty lock')
+    ctx.ob('C09.4', 'fields read by the operations enumerated', n >= 4, 'read set of the operations', loc='src/myth_sync_func.h', detail=str(n))
+    ctx.floor('C09.4', 6)
+
+
 def run(ctx):
     ctx.doc('C09.1', 'myth_felock_wait_and_lock_body: lock(fe->mutex) dominates everything; loop { load status; if != s: '
             'cond_wait(&fe->cond[s], fe->mutex) }; returns only on the == edge; no unlock')
@@ -47,6 +56,7 @@ def run(ctx):
     ctx.doc('C09.3', 'lock/unlock/status forward to fe->mutex / fe->status; init makes both condition variables and the mutex')
     for fl in flavours(ctx):
         ctx.unit = fl
+        rule_init_complete(ctx, fl)
         v = ctx.view(NATIVE, roots=['myth_felock_wait_and_lock_body', 'myth_felock_mark_and_signal_body', 'myth_felock_lock_body',
                                     'myth_felock_unlock_body', 'myth_felock_init_body', 'myth_felock_status_body'],
                      stops=LOCK + UNLOCK + CWAIT + CSIG + ('myth_mutex_init_body', 'myth_cond_init_body', 'myth_felockattr_init'), flavour=fl)
@@ -120,6 +130,8 @@ def run(ctx):
 
 SYNC = 'src/myth_sync_func.h'
 MUTANTS = [
+    {'name': 'felock_init forgets the status', 'expect': 'C09.4',
+     'edits': [(SYNC, '  myth_cond_init_body(&fe->cond[1], 0);\n  fe->status = 0;\n', '  myth_cond_init_body(&fe->cond[1], 0);\n')]},
     {'name': 'signal after unlock', 'expect': 'C09.2',
      'edits': [(SYNC, "  fe->status = status_to_signal;\n  myth_cond_signal(&fe->cond[status_to_signal]);\n  return myth_mutex_unlock_body(fe->mutex);",
                 "  fe->status = status_to_signal;\n  int r = myth_mutex_unlock_body(fe->mutex);\n  myth_cond_signal(&fe->cond[status_to_signal]);\n  return r;")]},
